@@ -14,9 +14,12 @@ import NeumannModel.Durable.Lemmas
   checkpoints except the two crash points "snapshot in place, marker absent/incomplete"
   (`recover_then_write_full_partial`), the live store (`live_image_follows_spec`), the finished
   checkpoint (`checkpoint_crash_safe`, last part).  Metadata map: everything, all sync modes.
-  The model follows /repo after 197dc525, e374d74b and 6b9ec7ce; the behaviours before those
-  commits are refuted by the `_witness` theorems on `Sys.ckptStepsOld`, `applyEntryOld1`/`putOld`
-  and `applyEntryOld2`.
+  `scan` lists readable keys only, live and recovered (`scan_lists_only_readable_keys`).
+  The model follows /repo after 197dc525, e374d74b, 6b9ec7ce and the fix "only `emb:` keys get an
+  entity-index entry / `EmbeddingSet` record / slab entry in `put_durable` and
+  `apply_wal_entry`"; the behaviours before those commits are refuted by the `_witness` theorems
+  on `Sys.ckptStepsOld`, `applyEntryOld1`/`putOld`, `applyEntryOld2` and
+  `putDurableOld`/`runOpsOld`/`applyEntryOld3`.
 -/
 namespace Neumann.Durable.Props
 open Neumann.FramedLog Neumann.Durable
@@ -221,6 +224,27 @@ theorem live_image_follows_spec (ops : List Op) :
   rw [runOps_md]
   exact MetaEq.refl _
 
+/-- **`scan` lists readable keys only, live and after any crash chain** (the repaired class
+    `tensor_store.slab_router.put_durable/non_emb_key_with_vector_stays_in_scan_after_delete`,
+    for ALL inputs): on the store recovered from any disk state of the crash model `ReachF`
+    (`ops = []`), and on the live store after ANY further operation list over every key class and
+    value, every key that `scan` lists — metadata slab, live entity-index entries, cache ring —
+    is answered by `get`.  (Entity-index entries exist for `emb:` keys only and each has its
+    metadata record; before the fix this failed: `non_emb_vector_key_witness`.) -/
+theorem scan_lists_only_readable_keys (hc : CodecOK crc enc dec) {snap : Option Store} {f : Bytes}
+    {tr : Trace} (h : ReachF crc enc dec snap f tr) (r : Store) (hr : recover crc dec snap f = .ok r)
+    (ops : List Op) :
+    ∀ k ∈ scanKeys (runOps r ops).2, (get (runOps r ops).2 k).isSome = true :=
+  scan_readable (good_runOps (reachF_good hc h r hr) ops) (classed_runOps (reachF_classed hc h r hr) ops)
+
+/-- the fresh store: the hypotheses of `scan_lists_only_readable_keys` hold of the empty disk, and
+    the statement is not vacuous (a put then lists its key) -/
+example : ReachF (fun _ => 0) toyEnc toyDec none [] [] ∧
+    recover (fun _ => 0) toyDec none [] = .ok Store.empty ∧
+    scanKeys (runOps Store.empty [Op.put [97] ⟨[1], some [1, 2, 3, 4]⟩, Op.put [101, 109, 98, 58, 97] ⟨[2], none⟩]).2
+      = [[101, 109, 98, 58, 97], [97], [101, 109, 98, 58, 97]] :=
+  ⟨.init, by decide +kernel, by decide +kernel⟩
+
 /-- **Exactly the cache class is not durable**: a `_cache:` key logs nothing; every other key's
     operation ends with the record that carries it. -/
 theorem cache_keys_not_durable (s : Store) (k : Bytes) (v : Val) :
@@ -232,7 +256,9 @@ theorem cache_keys_not_durable (s : Store) (k : Bytes) (v : Val) :
   · intro h; simp [h]
   · intro h
     constructor
-    · cases hv : v.emb <;> simp [h]
+    · by_cases hk : classify k = .embedding
+      · cases hv : v.emb <;> simp [h, hk]
+      · simp [h, hk]
     · simp [h]
 
 /-- recovery never invents cache entries: the cache after recovery is the snapshot's cache -/
@@ -425,22 +451,25 @@ theorem torn_put_embedding_witness :
 
 /-- **A logged entity id named another key on replay** (class
     `tensor_store.slab_router.recover/logged_entity_id_belongs_to_another_key`, fixed by repo
-    6b9ec7ce): `put a (vector); delete a; put a (vector); put emb:y (Y); put emb:z (Z)` — the
-    live `delete` of the non-`emb:` key keeps its index entry, replay of its `EntityRemove` does
-    not, so replay's ids run one ahead and the `EmbeddingSet` of `emb:z` lands on `emb:y`.
-    With the WHOLE log (no byte lost) the old replay made `get emb:y` return Z. -/
+    6b9ec7ce; writer and replay as they were then: `runOpsOld`, `applyEntryOld2`):
+    `put a (vector); delete a; put a (vector); put emb:y (Y); put emb:z (Z)` — the
+    live `delete` of the non-`emb:` key kept its index entry, replay of its `EntityRemove` did
+    not, so replay's ids ran one ahead and the `EmbeddingSet` of `emb:z` landed on `emb:y`.
+    With the WHOLE log (no byte lost) the old replay made `get emb:y` return Z.
+    (Since the fix "only `emb:` keys get an entity-index entry" the key `a` no longer has an id
+    at all: `non_emb_vector_key_witness`.) -/
 theorem logged_entity_id_witness :
     let crc : Bytes → Nat := fun _ => 0
     let a := [97]; let ky := [101, 109, 98, 58, 121]; let kz := [101, 109, 98, 58, 122]
     let vec := fun x => List.replicate 1536 x
     let ops := [Op.put a ⟨[1], some (vec 1)⟩, Op.delete a, Op.put a ⟨[2], some (vec 2)⟩,
                 Op.put ky ⟨[3], some (vec 3)⟩, Op.put kz ⟨[4], some (vec 4)⟩]
-    let n := (logBytes crc toyEnc (runOps Store.empty ops).1).length
-    ¬ RecoverIsPrefixFull (recoverWith applyEntryOld2 crc toyDec) crc toyEnc ops n := by
+    let n := (logBytes crc toyEnc (runOpsOld Store.empty ops).1).length
+    ¬ RecoverIsPrefixFullOld (recoverWith applyEntryOld2 crc toyDec) crc toyEnc ops n := by
   intro crc a ky kz vec ops n
   intro ⟨j, r, hj, hrec, hfull, hack⟩
   obtain ⟨r0, hr0, hp⟩ := exists_ok_of_okAnd
-    (x := recoverWith applyEntryOld2 crc toyDec none ((logBytes crc toyEnc (runOps Store.empty ops).1).take n))
+    (x := recoverWith applyEntryOld2 crc toyDec none ((logBytes crc toyEnc (runOpsOld Store.empty ops).1).take n))
     (p := fun r => decide (get r ky = some ⟨[3], some (vec 4)⟩)) (by decide +kernel)
   rw [hr0] at hrec
   injection hrec with hrec
@@ -452,6 +481,42 @@ theorem logged_entity_id_witness :
   have : j = 5 := by omega
   subst this
   exact absurd h (by decide +kernel)
+
+/-- **A vector stored durably under a non-`emb:` key left the key in `scan` after its deletion**
+    (class `tensor_store.slab_router.put_durable/non_emb_key_with_vector_stays_in_scan_after_delete`;
+    `putDurableOld` / `runOpsOld` / `applyEntryOld3` = the code before the fix "only `emb:` keys
+    get an entity-index entry"): `put_durable a (vector); delete_durable a`.  Before the fix the
+    put allocated an entity id for `a` and logged an `EmbeddingSet` record (5 records for the two
+    operations); `delete` of a metadata-class key erases the metadata slab only, so the LIVE
+    store went on listing `a` in `scan` while `get`/`exists` said absent — and the store
+    RECOVERED from the whole log did not list it (replay of the `EntityRemove` record releases
+    the id): live and recovered stores disagreed.  With the repaired `put_durable` /
+    `apply_wal_entry` the key has no id, the two operations log 2 records, and neither store
+    lists the key (for every operation list and crash chain: `scan_lists_only_readable_keys`). -/
+theorem non_emb_vector_key_witness :
+    let crc : Bytes → Nat := fun _ => 0
+    let a := [97]
+    let ops := [Op.put a ⟨[1], some (List.replicate 1536 1)⟩, Op.delete a]
+    ((runOpsOld Store.empty ops).1.length = 5 ∧
+      a ∈ scanKeys (runOpsOld Store.empty ops).2 ∧
+      get (runOpsOld Store.empty ops).2 a = none ∧ exists_ (runOpsOld Store.empty ops).2 a = false ∧
+      ∃ r, recoverWith applyEntryOld3 crc toyDec none (logBytes crc toyEnc (runOpsOld Store.empty ops).1) = .ok r ∧
+        a ∉ scanKeys r) ∧
+    ((runOps Store.empty ops).1.length = 2 ∧
+      a ∉ scanKeys (runOps Store.empty ops).2 ∧
+      ∃ r, recover crc toyDec none (logBytes crc toyEnc (runOps Store.empty ops).1) = .ok r ∧
+        a ∉ scanKeys r ∧ get r a = none) := by
+  intro crc a ops
+  refine ⟨⟨by decide +kernel, by decide +kernel, by decide +kernel, by decide +kernel, ?_⟩,
+    by decide +kernel, by decide +kernel, ?_⟩
+  · obtain ⟨r, hr, hp⟩ := exists_ok_of_okAnd
+      (x := recoverWith applyEntryOld3 crc toyDec none (logBytes crc toyEnc (runOpsOld Store.empty ops).1))
+      (p := fun r => decide (a ∉ scanKeys r)) (by decide +kernel)
+    exact ⟨r, hr, of_decide_eq_true hp⟩
+  · obtain ⟨r, hr, hp⟩ := exists_ok_of_okAnd
+      (x := recover crc toyDec none (logBytes crc toyEnc (runOps Store.empty ops).1))
+      (p := fun r => decide (a ∉ scanKeys r ∧ get r a = none)) (by decide +kernel)
+    exact ⟨r, hr, of_decide_eq_true hp⟩
 
 /-! ### non-vacuity -/
 
